@@ -48,6 +48,9 @@ fn main() {
         "C21" => props::c21::run(&mut ctx, &mut report),
         "C17" => props::c17::run(&mut ctx, &mut report),
         "C01" => props::c01::run(&mut ctx, &mut report),
+        "C11" => props::c11::run(&mut ctx, &mut report),
+        "C12" => props::c12::run(&mut ctx, &mut report),
+        "C13" => props::c13::run(&mut ctx, &mut report),
         "C28" => props::c28::run(&mut ctx, &mut report),
         "C22" => props::c22::run(&mut ctx, &mut report),
         "C26" => props::c26::run(&mut ctx, &mut report),
